@@ -99,53 +99,61 @@ well-known scalar ↔ its message, enum / object / oneof ↔ the referenced desc
 name, oneof-ness as `isOneofWrapper` says), or is the wrapper of an exposed oneof of the message;
 and the JSON names of its properties are pairwise distinct.
 
-The full statement is false of the code as it is: `google.protobuf.Struct` is reflected as
-`MapField{AnyField}` over a message-kind field (open finding `struct-as-map:*`). -/
+`google.protobuf.Struct` used to be the exception (reflected as `MapField{AnyField}` over a
+message-kind field, finding `struct-as-map:*`); since the repair it is an "unsupported google type"
+schema error like `google.protobuf.Duration`, and the statement holds for every descriptor set. -/
 
-def C18_paths_resolve_full : Prop :=
-  ∀ ds : DescSet, ∀ reg, schemaSetFromFiles ds = .ok reg → RegDescribes ds reg
-
-/-- `message M { google.protobuf.Struct s = 1; }` -/
+/-- `message M { google.protobuf.Struct s = 1; }` — the witness of the repaired `struct-as-map` -/
 def structWitness : DescSet :=
   let f : FieldD := ⟨"s", "s", 1, .message, .single, -1,
     .msg "google.protobuf.Struct" "google.protobuf" "Struct", false, none, none, none, none, none, none⟩
   let m : Msg := ⟨"wt.v1.M", "wt.v1", "M", "M", none, none, "nofield", none, [], [f]⟩
   ⟨["wt.v1.M"], [], ["wt.v1.M"], [m], []⟩
 
-theorem structWitness_reflects :
-    schemaSetFromFiles structWitness =
-      .ok [⟨"wt.v1", "M", some (.object "wt.v1" "M" none [] [⟨"s", false, false, [1], .map .any⟩]),
-        "wt.v1.M"⟩] :=
-  schemaSetFromFilesN_sound structWitness 10 _ (by decide)
+/-- `message M { google.protobuf.Duration d = 1; }` — the witness of the repaired
+`duration-as-string` -/
+def durationWitness : DescSet :=
+  let f : FieldD := ⟨"d", "d", 1, .message, .single, -1,
+    .msg "google.protobuf.Duration" "google.protobuf" "Duration", false, none, none, none, none, none, none⟩
+  let m : Msg := ⟨"wt.v1.M", "wt.v1", "M", "M", none, none, "nofield", none, [], [f]⟩
+  ⟨["wt.v1.M"], [], ["wt.v1.M"], [m], []⟩
 
-theorem C18_paths_resolve_counterexample : ¬ C18_paths_resolve_full := by
-  intro h
-  have hd := h structWitness _ structWitness_reflects
-  have := hd _ (List.mem_singleton.mpr rfl) _ rfl
-  obtain ⟨⟨m, hm, _, _, hp⟩, _⟩ := this
-  simp only [structWitness, List.mem_singleton] at hm
-  subst hm
-  rcases hp _ (List.mem_singleton.mpr rfl) with ⟨f, hf, _, hdesc⟩ | ⟨hpath, _⟩
-  · simp only [List.mem_singleton] at hf
-    subst hf
-    simp [describes, describesItem] at hdesc
-  · cases hpath
+/-- `message M { repeated j5.types.any.v1.Any a = 1; }` — the witness of the repaired
+`any-in-collection` -/
+def anyListWitness : DescSet :=
+  let f : FieldD := ⟨"a", "a", 1, .message, .list, -1,
+    .msg "j5.types.any.v1.Any" "j5.types.any.v1" "Any", false, none, none, none, none, none, none⟩
+  let m : Msg := ⟨"wt.v1.M", "wt.v1", "M", "M", none, none, "nofield", none, [], [f]⟩
+  ⟨["wt.v1.M"], [], ["wt.v1.M"], [m], []⟩
 
-/-- **Paths resolve, kinds match, names are unique** (partial: no `google.protobuf.Struct`
-field). For every descriptor set, if reflection succeeds then every schema of the set points into
-the message it was built from, with matching cardinality and kind, and distinct property names. -/
-theorem C18_paths_resolve_partial (ds : DescSet) (hsf : structFreeSet ds = true) (reg : Reg)
+-- (`String.startsWith` on a long enough string does not unfold for the elaborator's `decide`; the
+-- kernel evaluates it: `decide +kernel` adds no axiom)
+example : linked structWitness = true ∧ linked durationWitness = true ∧ linked anyListWitness = true := by
+  decide +kernel
+
+/-- the three repaired witnesses are schema errors now (Go: first ops of every `schema.reflect`
+shard) -/
+theorem C18_unsupported_are_errors :
+    schemaSetFromFiles structWitness = .err "unsupported google type" ∧
+    schemaSetFromFiles durationWitness = .err "unsupported google type" ∧
+    schemaSetFromFiles anyListWitness = .err "arrays / maps of Any are not supported" :=
+  ⟨schemaSetFromFilesN_sound structWitness 10 _ (by decide +kernel),
+   schemaSetFromFilesN_sound durationWitness 10 _ (by decide +kernel),
+   schemaSetFromFilesN_sound anyListWitness 10 _ (by decide)⟩
+
+/-- **Paths resolve, kinds match, names are unique.** For every descriptor set, if reflection
+succeeds then every schema of the set points into the message it was built from, with matching
+cardinality and kind, and distinct property names. -/
+theorem C18_paths_resolve (ds : DescSet) (reg : Reg)
     (h : schemaSetFromFiles ds = .ok reg) : RegDescribes ds reg :=
-  schemaSetFromFiles_describes ds hsf reg h
+  schemaSetFromFiles_describes ds reg h
 
 /-- the per-field core of it: the property built for a field has that field's number as path,
 its JSON name, and a schema describing it — whatever annotations the field carries -/
 theorem C18_property_describes_field (ds : DescSet) (reg : Reg) (f : FieldD) (prop : RProp)
-    (b : Built) (h : buildProperty ds reg f = .ok (prop, b)) (hns : structFree f = true) :
+    (b : Built) (h : buildProperty ds reg f = .ok (prop, b)) :
     prop.path = [f.number] ∧ prop.json = f.jsonName ∧ describes ds f prop.schema = true :=
-  buildProperty_describes ds reg f prop b h hns
-
-example : structFreeSet structWitness = false := by decide
+  buildProperty_describes ds reg f prop b h
 
 /-- what C15 assumes of a reflected scalar (`wfField`): the reader only ever builds integer and
 float scalars with a format the importer's `intKinds` / `floatKinds` tables know -/
@@ -199,18 +207,18 @@ example :
 are concatenations of such steps). If a property of a schema built from message `m` describes
 field `f` of `m`, then `newPropSet` resolves its path to a field with that number and every
 kind check of the field factories succeeds — no error, no panic. Together with
-`C18_paths_resolve_partial` this covers every non-flattened property of every reflected schema. -/
+`C18_paths_resolve` this covers every non-flattened property of every reflected schema. -/
 theorem C18_codec_ok_partial (ds : DescSet) (m : Msg) (f : FieldD) (hf : f ∈ m.fields) (s : RField)
     (h : describes ds f s = true) :
     (∃ g, resolvePath ds m [f.number] = .ok (some g) ∧ g ∈ m.fields ∧ g.number = f.number) ∧
     reflectField f s = .ok () :=
   ⟨resolvePath_single ds m f hf, reflectField_ok ds f s h⟩
 
-/-- the recorded exception on this side: a `repeated google.protobuf.Struct` reaches the message
-factory with a map schema and panics (open finding `struct-as-map:panic`) -/
-example : reflectField ⟨"r", "r", 2, .message, .list, -1,
-      .msg "google.protobuf.Struct" "google.protobuf" "Struct", false, none, none, none, none, none, none⟩
-    (.array (.map .any)) = .panic "invalid schema for message field" := by decide
+/-- what the strengthened `describes` excludes on this side: an array of `Any` passes the message
+factory but `newMessageArrayField` has no case for it (the reader no longer produces it) -/
+example : reflectField ⟨"a", "a", 1, .message, .list, -1,
+      .msg "j5.types.any.v1.Any" "j5.types.any.v1" "Any", false, none, none, none, none, none, none⟩
+    (.array .any) = .err "unsupported array item schema / unsupported schema type" := by decide
 
 /-! ## Non-vacuity -/
 
@@ -223,7 +231,7 @@ def selfRecursive : DescSet :=
   let m : Msg := ⟨"p.v1.M", "p.v1", "M", "M", none, none, "nofield", none, [], [f1, f2]⟩
   ⟨["p.v1.M"], [], ["p.v1.M"], [m], []⟩
 
-example : linked selfRecursive = true ∧ structFreeSet selfRecursive = true := by decide
+example : linked selfRecursive = true := by decide
 
 /-- … and it reflects: one object `M` with an object property pointing back at `M` -/
 example : schemaSetFromFiles selfRecursive =
@@ -249,8 +257,8 @@ theorem C18_src_kind_switches :
           ["Int64Kind", "Sint64Kind"], ["Uint64Kind"], ["FloatKind"], ["DoubleKind"], ["BytesKind"],
           ["default"]]),
        ("wktSchema", "string(fullName)",
-         [["google.protobuf.Timestamp"], ["google.protobuf.Duration"], ["j5.types.date.v1.Date"],
-          ["j5.types.decimal.v1.Decimal"], ["google.protobuf.Struct"],
+         [["google.protobuf.Timestamp"], ["j5.types.date.v1.Date"],
+          ["j5.types.decimal.v1.Decimal"],
           ["j5.types.any.v1.Any", "google.protobuf.Any"]])] := by decide
 
 /-- the model agrees with that table: exactly the listed scalar kinds are accepted (without
